@@ -8,6 +8,8 @@
 package c13
 
 import (
+	"math"
+
 	"github.com/trajectoryjp/spatial_id_go/v4/common/consts"
 	"github.com/trajectoryjp/spatial_id_go/v4/common/object"
 	"github.com/trajectoryjp/spatial_id_go/v4/transform"
@@ -102,16 +104,35 @@ func estimate(spatial bool, ts [][]int64, E, outV int64) int64 {
 	return sum
 }
 
-const guardCap = 4096 // the invoker refuses larger requests
-const genCap = 3000   // the generators stay below this
+// caps on the estimate (must equal DC13.cap): above them the invoker does not call the library and returns the marker; the dispatch entry
+// recomputes the estimate and answers class "skipped" only if it really exceeds the cap
+const guardCapExt, guardCapSp = 140000, 12000
+
+// the generators stay below these
+const genCapExt, genCapSp = 70000, 6000
+
+const sizeMarker = "c13-size-guard"
+
+func guardCap(spatial bool) int64 {
+	if spatial {
+		return guardCapSp
+	}
+	return guardCapExt
+}
+func genCap(spatial bool) int64 {
+	if spatial {
+		return genCapSp
+	}
+	return genCapExt
+}
 
 func call(spatial bool, tiles w.Val, E, O, outV int64) w.Val {
 	var raw [][]int64
 	for _, tv := range w.AsList(tiles) {
 		raw = append(raw, w.AsInts(tv))
 	}
-	if estimate(spatial, raw, E, outV) > guardCap {
-		panic("c13 guard: this request asks for more results than the harness handles")
+	if estimate(spatial, raw, E, outV) > guardCap(spatial) {
+		return w.S(sizeMarker)
 	}
 	req, err := buildTiles(tiles)
 	if err != nil {
@@ -190,6 +211,14 @@ func sign(g *Gen, x int64) int64 {
 
 // offset: 0, ±2^k, odd, negative, the library's 2^24, random
 func offset(g *Gen) (int64, string) {
+	if g.Chance(0.04) { // up to the edge of the proved int64 domain: almost every such request must fail
+		k := 36 + g.Int63n(15)
+		o := pow2(k) + g.Pick(0, 0, 1, -1, g.Int63n(1<<20))
+		if k == 50 {
+			o = pow2(50) - g.Int63n(3)
+		}
+		return sign(g, o), "off=2^36..2^50"
+	}
 	switch g.Intn(11) {
 	case 0, 1, 2:
 		return 0, "off=0"
@@ -427,7 +456,69 @@ func genRequest(g *Gen, spatial bool) (params, []tile, []string) {
 	p, tags := genParams(g, spatial)
 	var ts []tile
 	mode := ""
-	switch c := g.Intn(100); {
+	c := g.Intn(100)
+	big := g.Intn(1000)
+	switch {
+	case big < 40: // many small tiles with heavy overlap: 20..200 (extended) / 10..60 (spatial)
+		mode = "req:many-tiles"
+		p.budget = g.Int63n(4)
+		if p.outV > 28 { // a metre is 2^(outV-25) indices: keep the per-tile ranges short
+			p.outV = g.Pick(25, 26, 27, 28, 0, 1, 24)
+		}
+		n := 20 + g.Intn(181)
+		if spatial {
+			n = 10 + g.Intn(51)
+		}
+		seedTiles := 1 + g.Intn(6)
+		for i := 0; i < seedTiles; i++ {
+			t, _ := genTile(g, p, 3)
+			ts = append(ts, t)
+		}
+		for len(ts) < n {
+			b := ts[g.Intn(len(ts))]
+			switch g.Intn(5) {
+			case 0:
+				ts = append(ts, b)
+			case 1:
+				ts = append(ts, otherVZoom(g, p, b))
+			default:
+				ts = append(ts, overlapping(g, b))
+			}
+		}
+		ts = shuffle(g, ts)
+	case big < 52 && !spatial: // one tall tile: 2^12 .. 2^16 indices (extended variant only), alone or with neighbours
+		mode = "req:tall-tile"
+		rb := 12 + g.Int63n(5)
+		lo := p.E + p.outV - 25 - rb
+		if lo < 0 || lo > 35 { // not expressible with these (E, outV)
+			p.E, p.outV = 25, 25
+			lo = 25 - rb
+		}
+		t, zt := genTile(g, p, 2)
+		t[3] = lo
+		t[4], zt = zFor(g, p, lo)
+		ts = []tile{t}
+		tags = append(tags, zt)
+		if g.Chance(0.4) {
+			ts = append(ts, overlapping(g, t))
+		}
+		if g.Chance(0.3) {
+			x, _ := genTile(g, p, 3)
+			ts = append(ts, x)
+		}
+	case big < 90 && !spatial: // x, y outside [0, 2^hZoom): copied unchecked by the extended variant
+		mode = "req:out-of-grid-xy"
+		n := 1 + g.Intn(4)
+		for i := 0; i < n; i++ {
+			t, _ := genTile(g, p, 5)
+			w := pow2(t[0])
+			t[1] = g.Pick(-1, w, w+1, -w, 1<<62, -(1 << 62), math.MaxInt64, math.MinInt64, g.Int63n(1<<40)-(1<<39), t[1])
+			t[2] = g.Pick(-1, w, 2*w, -7, 1<<62, math.MaxInt64, math.MinInt64, g.Int63n(1<<40)-(1<<39), t[2])
+			ts = append(ts, t)
+		}
+		if g.Chance(0.3) {
+			ts = append(ts, ts[0])
+		}
 	case c < 4:
 		mode = "req:empty"
 	case c < 22: // independent tiles
@@ -554,7 +645,7 @@ func genRequest(g *Gen, spatial bool) (params, []tile, []string) {
 		}
 		ts = append(ts[:pos], append([]tile{b}, ts[pos:]...)...)
 		tags = append(tags, Tag("badpos=%d/%d", pos, len(ts)))
-	case c < 96: // output zoom outside 0..35
+	case c < 98: // output zoom outside 0..35
 		mode = "req:bad-output-zoom"
 		n := g.Intn(4) // also the empty request: the zoom is checked before the loop (322d7d5)
 		for i := 0; i < n; i++ {
@@ -586,14 +677,22 @@ func est(p params, ts []tile, spatial bool) int64 {
 
 // trim drops tiles from the end until the request is small enough
 func trim(p params, ts []tile, spatial bool) []tile {
-	for len(ts) > 0 && est(p, ts, spatial) > genCap {
+	for len(ts) > 0 && est(p, ts, spatial) > genCap(spatial) {
 		ts = ts[:len(ts)-1]
 	}
 	return ts
 }
 
-// trivial: the empty request with a valid output zoom
-func trivial(p params, ts []tile) bool { return len(ts) == 0 && p.outV >= 0 && p.outV <= 35 }
+// trivial: the empty request with a valid output zoom, and requests NewTileXYZ refuses to build (no conversion takes place: the case
+// exercises NewTileXYZ only and must not count as an evaluation of the conversions)
+func trivial(p params, ts []tile) bool {
+	for _, t := range ts {
+		if t[0] < 0 || t[0] > 35 || t[3] < 0 || t[3] > 35 {
+			return true
+		}
+	}
+	return len(ts) == 0 && p.outV >= 0 && p.outV <= 35
+}
 
 func argsOf(p params, ts []tile) []w.Val {
 	return []w.Val{tilesVal(ts), w.I(p.E), w.I(p.O), w.I(p.outV)}
@@ -638,16 +737,19 @@ func genSequence(g *Gen) ([]w.Val, []string) {
 		case 7:
 			if !sp {
 				sp = true
-				// keep the expansion small: horizontal zoom next to the output zoom
+				// keep the expansion small (horizontal zoom next to the output zoom) and the footprint inside the grid
 				us = append([]tile{}, ts...)
 				for k := range us {
-					if q.outV >= 0 && q.outV <= 35 && us[k][0] >= 0 && us[k][0] <= 35 {
-						h := q.outV + g.Pick(0, 1, -1, 2)
-						if h < 0 {
-							h = 0
-						}
-						if h > 35 {
-							h = 35
+					if us[k][0] >= 0 && us[k][0] <= 35 {
+						h := us[k][0]
+						if q.outV >= 0 && q.outV <= 35 {
+							h = q.outV + g.Pick(0, 1, -1, 2)
+							if h < 0 {
+								h = 0
+							}
+							if h > 35 {
+								h = 35
+							}
 						}
 						us[k][0], us[k][1], us[k][2] = h, g.HIndex(h), g.HIndex(h)
 					}
@@ -656,7 +758,7 @@ func genSequence(g *Gen) ([]w.Val, []string) {
 				sp = false
 			}
 		}
-		if est(q, us, sp) > genCap {
+		if est(q, us, sp) > genCap(sp) {
 			q, us, sp = p, ts, spatial
 		}
 		calls = append(calls, callVal(q, us, sp))
@@ -682,6 +784,15 @@ func genNewTile(g *Gen) ([]w.Val, []string) {
 	x, y, z := g.Int63n(1<<36)-(1<<20), g.Int63n(1<<36)-(1<<20), g.Int63n(1<<36)-(1<<35)
 	if g.Chance(0.3) {
 		x, y, z = g.Pick(0, -1, 1), g.Pick(0, -1, 7), g.Pick(0, -1, 5)
+	}
+	if g.Chance(0.15) {
+		x, y, z = g.Pick(math.MaxInt64, math.MinInt64, x), g.Pick(math.MinInt64, math.MaxInt64, y), g.Pick(math.MaxInt64, math.MinInt64, z)
+		if g.Chance(0.3) {
+			h = g.Pick(math.MaxInt64, math.MinInt64, h)
+			v = g.Pick(math.MinInt64, math.MaxInt64, v)
+			tag = "new:both-edge"
+		}
+		tag += ",int64-extremes"
 	}
 	return []w.Val{w.I(h), w.I(x), w.I(y), w.I(v), w.I(z)}, []string{tag}
 }
@@ -726,7 +837,7 @@ var fixed = []fixedReq{
 }
 
 func init() {
-	Scale["C13"] = 2000
+	Scale["C13"] = 1700
 	Registry["C13"] = func(r *run.Runner, g *Gen, n int) {
 		r.Register(fnConv(nExt, false), fnConv(nSp, true), fnNew(), fnSeq(), fnPair())
 		if n == 0 {
